@@ -846,4 +846,77 @@ def argsOkSs (b : Bindings) : List Stmt → Bool
   | s :: ss => argsOkS b s && argsOkSs b ss
 end
 
+/-! ## nodes that `visit_arg` puts into the result WITHOUT a copy (labels, in traversal order) -/
+def notName (e : Expr) : Bool := !isName e
+
+mutual
+def sharedE (b : Bindings) : Expr → List Nat
+  | .noneMarker => []
+  | .name .. => []
+  | .keyword _ f_arg f_hasArg f_value =>
+      match (if f_hasArg then b.lookup f_arg else none) with
+      | some _ => []
+      | none => sharedE b f_value
+  | .arg _ f_name _ => match b.lookup f_name with
+      | some bd => labelsEs (bd.exprs.filter notName)
+      | none => []
+  | .attr _ f_value f_attr f_ctx => sharedE b f_value
+  | .subscript _ f_value f_slice f_ctx => sharedE b f_value ++ (sharedE b f_slice)
+  | .seq _ f_kind f_elts f_ctx => sharedEs b f_elts
+  | .starred _ f_value f_ctx => sharedE b f_value
+  | .const _ f_kind f_repr => []
+  | .call _ f_func f_args f_keywords => sharedE b f_func ++ (sharedEs b f_args ++ (sharedEs b f_keywords))
+  | .boolop _ f_isAnd f_values => sharedEs b f_values
+  | .unary _ f_op f_operand => sharedE b f_operand
+  | .binop _ f_op f_left f_right => sharedE b f_left ++ (sharedE b f_right)
+  | .compare _ f_left f_ops f_comparators => sharedE b f_left ++ (sharedEs b f_comparators)
+  | .ifexp _ f_test f_body f_orelse => sharedE b f_test ++ (sharedE b f_body ++ (sharedE b f_orelse))
+  | .lambda _ f_args f_body => sharedE b f_args ++ (sharedE b f_body)
+  | .namedexpr _ f_target f_value => sharedE b f_target ++ (sharedE b f_value)
+  | .comp _ f_kind f_elts f_generators => sharedEs b f_elts ++ (sharedEs b f_generators)
+  | .comprehension _ f_target f_iter f_ifs f_isAsync => sharedE b f_target ++ (sharedE b f_iter ++ (sharedEs b f_ifs))
+  | .arguments _ f_posonly f_args f_vararg f_kwonly f_kwDefaults f_kwarg f_defaults => sharedEs b f_posonly ++ (sharedEs b f_args ++ (sharedEs b f_vararg ++ (sharedEs b f_kwonly ++ (sharedEs b f_kwDefaults ++ (sharedEs b f_kwarg ++ (sharedEs b f_defaults))))))
+  | .withitem _ f_contextExpr f_optionalVars => sharedE b f_contextExpr ++ (sharedEs b f_optionalVars)
+  | .other _ f_kind f_attrs f_kids => sharedEs b f_kids
+def sharedEs (b : Bindings) : List Expr → List Nat
+  | [] => []
+  | e :: es => sharedE b e ++ sharedEs b es
+end
+mutual
+def sharedS (b : Bindings) : Stmt → List Nat
+  | .expr _ f_value =>
+      match f_value with
+      | .name .. => []
+      | _ => sharedE b f_value
+  | .functionDef _ f_name f_args f_body f_decorators f_returns f_isAsync => sharedE b f_args ++ (sharedSs b f_body ++ (sharedEs b f_decorators ++ (sharedEs b f_returns)))
+  | .classDef _ f_name f_bases f_keywords f_body f_decorators => sharedEs b f_bases ++ (sharedEs b f_keywords ++ (sharedSs b f_body ++ (sharedEs b f_decorators)))
+  | .ret _ f_value => sharedEs b f_value
+  | .delete _ f_targets => sharedEs b f_targets
+  | .assign _ f_targets f_value => sharedEs b f_targets ++ (sharedE b f_value)
+  | .augAssign _ f_target f_op f_value => sharedE b f_target ++ (sharedE b f_value)
+  | .annAssign _ f_target f_annotation f_value f_simple => sharedE b f_target ++ (sharedE b f_annotation ++ (sharedEs b f_value))
+  | .for_ _ f_target f_iter f_body f_orelse f_extraTest f_isAsync => sharedE b f_target ++ (sharedE b f_iter ++ (sharedSs b f_body ++ (sharedSs b f_orelse ++ (sharedEs b f_extraTest))))
+  | .while_ _ f_test f_body f_orelse => sharedE b f_test ++ (sharedSs b f_body ++ (sharedSs b f_orelse))
+  | .if_ _ f_test f_body f_orelse => sharedE b f_test ++ (sharedSs b f_body ++ (sharedSs b f_orelse))
+  | .with_ _ f_items f_body f_isAsync => sharedEs b f_items ++ (sharedSs b f_body)
+  | .raise _ f_exc f_cause => sharedEs b f_exc ++ (sharedEs b f_cause)
+  | .try_ _ f_body f_handlers f_orelse f_finalbody => sharedSs b f_body ++ (sharedSs b f_handlers ++ (sharedSs b f_orelse ++ (sharedSs b f_finalbody)))
+  | .handler _ f_type_ f_name f_body => sharedEs b f_type_ ++ (sharedSs b f_body)
+  | .assert_ _ f_test f_msg => sharedE b f_test ++ (sharedEs b f_msg)
+  | .import_ _ f_names => []
+  | .importFrom _ f_module f_names f_level => []
+  | .global _ f_names => []
+  | .nonlocal _ f_names => []
+  | .pass _ => []
+  | .break_ _ => []
+  | .continue_ _ => []
+  | .other _ f_kind f_exprs f_blocks => sharedEs b f_exprs ++ (sharedSs b f_blocks)
+def sharedSs (b : Bindings) : List Stmt → List Nat
+  | [] => []
+  | s :: ss => sharedS b s ++ sharedSs b ss
+end
+
+/-- every node that is inserted without a copy is inserted at most once (and is one object, not two with one label) -/
+def sharedOk (b : Bindings) (t : List Stmt) : Bool := decide (sharedSs b t).Nodup
+
 end Malt.Conv.Template
